@@ -179,18 +179,18 @@ void workload(vf::Rng& rng, unsigned steps, std::uint64_t hseed)
     etl::flat_set<int, etl::static_vector<int, 8>> fset;
     etl::inplace_function<int(int), 32> fn;
     etl::stack<int, etl::static_vector<int, 8>> stk;
-    int arr[24];
-    int arr2[24];
-    int out[48]   = {};
+    int arr[300];
+    int arr2[300];
+    int out[600]  = {};
     char text[64] = {};
-    for (int i = 0; i < 24; ++i) {
+    for (int i = 0; i < 300; ++i) {
         arr[i]  = (int)rng.below(10);
         arr2[i] = (int)rng.below(10);
     }
     for (unsigned step = 0; step < steps; ++step) {
         unsigned w = (unsigned)rng.below(60);
         int v      = (int)rng.below(10);
-        int n      = 1 + (int)rng.below(23);
+        int n      = rng.chance(1, 4) ? 65 + (int)rng.below(230) : 1 + (int)rng.below(23); // some long inputs: size-dependent code paths (thresholds, buffers)
         switch (w) {
         case 0: G("static_vector<int,16>", "push_back", if (!vi.full()) { vi.push_back(v); }); break;
         case 1: G("static_vector<int,16>", "insert(pos,value)", if (!vi.full()) { vi.insert(vi.begin() + (std::ptrdiff_t)rng.below(vi.size() + 1), v); }); break;
